@@ -11,7 +11,7 @@ def inRange : Raw → Prop
   | _ => True
 
 theorem readTotal_off_nonneg (off : Int) (r : Raw) (h : 0 ≤ off) : 0 ≤ (readTotal off r).1 := by
-  cases r <;> simp [readTotal] <;> try exact h
+  cases r <;> simp [readTotal, offsetConst] <;> try exact h
   split <;> omega
 
 theorem readTotal_isExc (off : Int) (r : Raw) : (readTotal off r).2.isExc = isFail r := by
@@ -33,7 +33,7 @@ theorem approx_self (num den : Int) (hn : 0 ≤ num) (hd : 0 < den) : approx ⟨
 
 theorem derive_ok (isBytes : Bool) (tPrev tNow : Int) (ht : tPrev < tNow) (prev v : Val) :
     rateOk isBytes tPrev tNow prev v (derive isBytes tNow v tPrev prev) = true := by
-  cases prev <;> cases v <;> simp [derive, rateOk]
+  cases prev <;> cases v <;> simp [derive, rateOk, kibConst]
   rename_i l c
   by_cases h : c < l
   · simp [h]; omega
@@ -42,7 +42,7 @@ theorem derive_ok (isBytes : Bool) (tPrev tNow : Int) (ht : tPrev < tNow) (prev 
     intro _
     apply approx_self
     · exact Int.mul_nonneg (by omega) (by omega)
-    · cases isBytes <;> simp <;> omega
+    · cases isBytes <;> simp [kibConst] <;> omega
 
 /-- one counter, one sample: the judge accepts the model's output, the stored last value is the
     reported one and the offset stays non-negative -/
@@ -55,7 +55,7 @@ theorem stepCounter_ok (isBytes : Bool) (tPrev tNow : Int) (ht : tPrev < tNow) (
   refine ⟨?_, rfl, readTotal_off_nonneg c.off raw hoff⟩
   simp only [stepCounter, counterOk, Bool.and_eq_true]
   refine ⟨⟨?_, ?_⟩, derive_ok isBytes tPrev tNow ht c.last _⟩
-  · cases raw <;> simp [readTotal, nonnegOk]
+  · cases raw <;> simp [readTotal, nonnegOk, offsetConst]
     rename_i n
     simp [inRange] at hr
     split <;> omega
